@@ -17,6 +17,20 @@ func vRunC18(c *vCase) {
 		size = 2 + r.Intn(4095)
 	}
 	name := fmt.Sprintf("verif_%d_%d", os.Getpid(), c.Idx)
+	if vChance(r, 0.25) {
+		// an earlier ring under the same names, used and then abandoned without unlinking: the ring created now is a new, empty FIFO
+		old, _ := NewRingBuffer(name+"_buffer", name+"_description")
+		if old.Create(vPick(r, 64, 100, size)) == nil {
+			junk := make([]byte, 10+r.Intn(50))
+			for i := range junk {
+				junk[i] = 0xA5
+			}
+			old.Write(junk)
+			old.Read(1 + r.Intn(9))
+			old.Close()
+			c.Cov("created_over_an_abandoned_ring", 1)
+		}
+	}
 	w, _ := NewRingBuffer(name+"_buffer", name+"_description")
 	if err := w.Create(size); err != nil {
 		c.Inconclusive("setup", "Create(%d): %v", size, err)
